@@ -19,6 +19,7 @@ theorem XL.length_le {t u : Str} (h : XL t u) : u.length ≤ t.length := by
   | cls b t u _ _ _ _ ih => simp; omega
   | lpn t u _ ih => simp; omega
   | lpc t u _ _ ih => simp; omega
+  | cnt q t u _ _ ih => simp; omega
 
 /-- the first line is not indented -/
 theorem indent_first (cfg : Config) (l rest : Str) (hl : 10 ∉ l) (hne : l ≠ []) (hcr : 13 ∉ l ++ 10 :: rest) :
